@@ -174,6 +174,34 @@ def check_alvec(o):
                     {"got": n2.target.points, "want": tgt2}, None))
     if not L.close(n_.h_matrix, h_n, 0) or not L.close(n_.target.points, t_n, 0):
         bad.append(("from_vector changed the receiver alignment (built with a residual)", {}, None))
+    # ... and whatever shape classes the two ends are (a cloud aligned to a mesh, a mesh aligned to a cloud): the receiver keeps its
+    # matrix and its target, the new object has the new ones and shares neither end with the receiver
+    if len(src) >= 3:
+        from menpo.shape import TriMesh
+
+        tl = np.array([[0, 1, 2]])
+        for mtag, mk_s, mk_t in (("cloud source, mesh target", PointCloud, lambda p: TriMesh(p, trilist=tl.copy())),
+                                 ("mesh source, cloud target", lambda p: TriMesh(p, trilist=tl.copy()), PointCloud)):
+            try:
+                x_ = getattr(mt, "Alignment" + cls)(mk_s(src.copy()), mk_t(tgt0.copy()))
+                hx, tx, tcls = x_.h_matrix.copy(), x_.target.points.copy(), type(x_.target)
+                x2 = x_.from_vector(v)
+            except Exception as e:
+                from ..core import from_library
+
+                if not from_library(e):
+                    raise
+                bad.append(("Alignment%s (%s): from_vector raised %s" % (cls, mtag, type(e).__name__), {"msg": str(e)[:100]}, None))
+                continue
+            if not L.close(x_.h_matrix, hx, 0) or not L.close(x_.target.points, tx, 0) or type(x_.target) is not tcls:
+                bad.append(("Alignment%s (%s): from_vector changed the receiver (matrix / target)" % (cls, mtag),
+                            {"target": x_.target.points, "want": tx}, None))
+            if not L.close(x2.h_matrix, M2, 1e-9) or not L.close(x2.target.points, tgt2, 1e-9) \
+                    or not L.close(x2.target.points, x2.aligned_source().points, 1e-9):
+                bad.append(("Alignment%s (%s): from_vector(v) is not the transform v describes with its target re-synchronised" % (cls, mtag),
+                            {"got": x2.h_matrix, "want": M2}, None))
+            if x2.target is x_.target or np.shares_memory(x2.target.points, x_.target.points):
+                bad.append(("Alignment%s (%s): the object returned by from_vector shares its target with the receiver" % (cls, mtag), {}, None))
     # constructor options steer the FIT; a parameter vector means the same transform whatever they are
     opts = {"Similarity": [dict(rotation=False), dict(allow_mirror=True), dict(rotation=False, allow_mirror=True)], "Rotation": [dict(allow_mirror=True)]}.get(cls, [])
     for kw in opts:
